@@ -381,6 +381,16 @@ func (fx *Fx) runLoop(st *State, lp *loopParts) {
 			}
 			back.assume(fx.specBool(env, inv.Expr))
 		}
+		if lp.spec != nil && lp.spec.Cancels != "" {
+			// a message loop that observed the cancellation of its context does not take another turn
+			ex, perr := parseSpecExpr(fmt.Sprintf("!(isRecv(ev(old(evlen))) && evch(ev(old(evlen))) == ctxdone(%s))", lp.spec.Cancels))
+			if perr != nil {
+				panic(perr)
+			}
+			if phi, ok := fx.specBoolIfInScope(fx.specEnv(back, loopHead, lp.body.Lbrace+1), ex); ok {
+				c.oblige(back, "cancel", tag+".stops-on-cancel"+sfx, phi, "after receiving from "+lp.spec.Cancels+".Done() the loop does not iterate again", fx.w.pos(lp.node.Pos()))
+			}
+		}
 		for k, it := range iters {
 			parts := splitConj(it.Expr)
 			for pi, pe := range parts {
@@ -402,6 +412,47 @@ func (fx *Fx) runLoop(st *State, lp *loopParts) {
 			if applied[k] == 0 {
 				sfail("iter clause %q applies to no back edge of loop %d (a variable it mentions is live on none)", it.Text, lp.ord)
 			}
+		}
+	}
+	if lp.spec != nil && lp.spec.Cancels != "" && !c.dry {
+		// every select the loop blocks in (at the top level of its body) offers the cancellation alternative
+		nsel := 0
+		for _, stmt := range lp.body.List {
+			sel, ok := stmt.(*ast.SelectStmt)
+			if ls, isL := stmt.(*ast.LabeledStmt); isL {
+				sel, ok = ls.Stmt.(*ast.SelectStmt)
+			}
+			if !ok {
+				continue
+			}
+			nsel++
+			has := "false"
+			for _, cl := range sel.Body.List {
+				cc := cl.(*ast.CommClause)
+				var rx ast.Expr
+				switch cm := cc.Comm.(type) {
+				case *ast.ExprStmt:
+					rx = cm.X
+				case *ast.AssignStmt:
+					rx = cm.Rhs[0]
+				}
+				if u, ok := unparen(rx).(*ast.UnaryExpr); ok && rx != nil {
+					if call, ok := unparen(u.X).(*ast.CallExpr); ok {
+						if se, ok := unparen(call.Fun).(*ast.SelectorExpr); ok && se.Sel.Name == "Done" {
+							if id, ok := unparen(se.X).(*ast.Ident); ok && id.Name == lp.spec.Cancels {
+								has = "true"
+							}
+						}
+					}
+				}
+				if cc.Comm == nil {
+					has = "true" // a default branch: the select does not block
+				}
+			}
+			c.oblige(loopHead, "cancel", fmt.Sprintf("%s.select%d-offers-cancellation", tag, nsel), has, "the select the loop blocks in has a case <-"+lp.spec.Cancels+".Done()", fx.w.pos(sel.Pos()))
+		}
+		if nsel == 0 {
+			c.oblige(loopHead, "cancel", tag+".blocks-in-a-select", "false", "a cancellable message loop blocks in a select at the top level of its body", fx.w.pos(lp.node.Pos()))
 		}
 	}
 	// 5. after the loop
